@@ -103,8 +103,17 @@ def atoms():
             'x in (p.a, p.b)', 'p.a in (p.b, 1)', 'p.a not in (p.b, x)', "y in (p.s, p.u)", "p.s not in (p.u, 'a')",
             '(p.a, p.b) == (x, 1)', '(p.a, p.s) != (x, y)', '(p.a, p.b) in ((1, 2), (x, 3))', '(p.a, p.b) == z', '(p.a, p.b) != z',
             'p.a in z', 'p.b not in z', 'p.b in z',
+            # per-row string index
+            'p.s[p.a] == y', "p.s[p.a - 1] == 'a'", 'p.s[p.b] != y', 'p.s[-p.a] == y', 'p.s[len(p.s) - 1] == y', 'p.u[p.a] == p.s[0]',
             ]
     return out
+
+
+def t_atoms():
+    # paths over two collection hops whose items are reached along one path each (many-to-many, then one-to-many)
+    return ['count(t.gs.ps) > x', 'len(t.gs.ps) == x', 'x in t.gs.ps.a', 'x not in t.gs.ps.b', 'sum(t.gs.ps.a) > x', 'max(t.gs.ps.b) == x', 'min(t.gs.ps.a) < x', 't.gs.ps', 'not t.gs.ps',
+            'exists(p for p in t.gs.ps if p.a > x)', 'count(t.gs.ps) > count(t.gs)', 'len(t.gs) == x', 'sum(t.gs.n) > x', 'x in t.gs.n', 't.w in t.gs.ps.a',
+            'exists(g for g in t.gs if len(g.ps) > x)', 'not exists(g for g in t.gs if g.n is None)', 'x in t.gs.tags.w', 'not t.gs.tags', 'max(t.gs.tags.w) > t.w']
 
 
 def g_atoms():
@@ -169,6 +178,11 @@ def programs(tier, rng):
     for a in g_atoms():
         add('(g for g in G if %s)' % a, 'g-atom')
         add('(g for g in G if not (%s))' % a, 'g-not-atom')
+    for a in t_atoms():
+        add('(t for t in T if %s)' % a, 't-atom')
+        add('(t for t in T if not (%s))' % a, 't-not-atom')
+    for e in ['(t.id, count(t.gs.ps))', '(t.id, sum(t.gs.ps.a), len(t.gs))', '(t.id, max(t.gs.ps.b))', '(t.id, t.w, len(t.gs))']:      # (grouping columns include the key: one group per object)
+        add('(%s for t in T)' % e, 't-projection')
     # a select list consisting ONLY of aggregates is a grand-total query in pony (documented aggregate-query form), which has no
     # per-row Python counterpart: aggregates appear next to a non-aggregate column here
     for e in ['(g.id, len(g.ps))', '(g, sum(g.ps.a))', '(g.id, max(g.ps.b))', '(g.id, min(p.a for p in g.ps))', '(g.id, count(p for p in g.ps if p.f))', 'g.name', 'g.n',
